@@ -384,7 +384,7 @@ func (c *Ctx) loopOverTransitions(hdr *ssa.BasicBlock) (from, onto ssa.Value, ex
 	}
 	mb, okM := fieldOf(tcall.Call.Args[1], "Matcher")
 	nb, okN := fieldOf(tcall.Call.Args[2], "Next")
-	if !okM || !okN || mb != nb {
+	if !okM || !okN || (mb != nb && !sameElemLoad(mb, nb)) {
 		return nil, nil, nil, false
 	}
 	sl, h, isR := rangeElemHeader(mb)
@@ -401,6 +401,19 @@ func (c *Ctx) loopOverTransitions(hdr *ssa.BasicBlock) (from, onto ssa.Value, ex
 		return nil, nil, nil, false
 	}
 	return x, tcall.Call.Args[0], ex, true
+}
+
+// sameElemLoad: a and b are two loads of the same element x[i] (the body has no stores, so they
+// read the same value).
+func sameElemLoad(a, b ssa.Value) bool {
+	la, okA := a.(*ssa.UnOp)
+	lb, okB := b.(*ssa.UnOp)
+	if !okA || !okB || la.Op != token.MUL || lb.Op != token.MUL {
+		return false
+	}
+	ia, okA := la.X.(*ssa.IndexAddr)
+	ib, okB := lb.X.(*ssa.IndexAddr)
+	return okA && okB && ia.X == ib.X && ia.Index == ib.Index
 }
 
 var _ = types.Typ
